@@ -405,6 +405,8 @@ def gen_cli_case(rng, mode):
     else:
         args += ["--recombrate", str(r.choice([0.01, 1.26, 50, 5000]))]
     args += ["--internal-downsampling", "15" if recomb else str(r.choice([4, 9, 15]))]
+    if not case.get("genmap") and r.random() < 0.35:
+        case["twin"] = "chr0"       # two chromosomes with the same content: everything reported must cover both
     return {"kind": "cli", "mode": mode, "data": case, "args": args, "use_ref": r.random() < 0.5, "sub_seed": sub}
 
 
@@ -434,7 +436,10 @@ def run_cli(ctx, batch, case):
         except Exception as e:      # the output of a successful run must be a readable VCF
             ctx.fail(f"output VCF of whatshap phase cannot be parsed: {type(e).__name__}: {e}", case, key="output-vcf-unreadable")
             return
-        check_cli(ctx, batch, case, samples, recs, inrecs, trace, read_recombination_list(ctx, case, rl))
+        rows = read_recombination_list(ctx, case, rl)
+        for n in ([case["data"]["twin"]] if case["data"].get("twin") else []) + [case["data"]["contig"]]:
+            check_cli(ctx, batch, case, samples, [r for r in recs if r["chrom"] == n], [r for r in inrecs if r["chrom"] == n],
+                      [t for t in trace if t["chromosome"] == n], rows)
     finally:
         shutil.rmtree(d, ignore_errors=True)
 
